@@ -10,6 +10,16 @@ CHECKS = {
    technique="TLA+ reference dictionary (OrderedMap.tla), TLC state-graph dump, every path replayed on the real containers",
    text="OrderedMap.tla is the reference insertion-ordered dictionary; TLC checks its design invariants (order is a permutation of the keys, relative order stable) and dumps the complete labelled state graph (79 states, 3 keys x 2 values). The harness replays, from every state, every action sequence up to a bound (plus seeded random walks) on the real RuleASTNodes/ASTNodes/Constraints/StringSet and compares Len, Has/Get, Each/EachSafe/Find order and MarshalJSON with the model state.",
    note="Small-scope: 3 keys, 2 values (the container code never looks inside keys or values). TLC, the DOT dump and the harness's observation code are trusted. Constraints.MarshalJSON is not compared."),
+ "C12": dict(
+   category="model_checking", design_ref="DESIGN.md §3 C12",
+   technique="TLA+ reference automaton (JsonDoc.tla) checked equal to an independent TLA+ grammar; TLC graph dump walked against formats/json (all strings <= N, W-method, random walks) and recorded traces validated by TLC (JsonDocTrace)",
+   text="JsonDoc.tla is an RFC 8259 automaton with lexeme events, TLC proves it equal to a recursive-descent grammar relation for all class strings up to a bound (AcceptIffGrammar). Direction 1: the dumped state graph (nesting <= 3, ~600 states x 32 byte classes, plain and trailing option) yields all strings <= N, the W-method suite and random walks with random member bytes; each is run through Check, NextLexeme, Len and a tree rebuild compared with encoding/json. Direction 2: corpus literals, generated and mutated documents are traced byte by byte and validated by TLC against JsonDocTrace (spans computed in TLA+).",
+   note="Trusted: TLC, the byte->class map, encoding/json for the tree comparison. Greedy reading of the trailing option; inputs like 1.x are inconclusive. Nesting beyond 3 only through traces/random documents."),
+ "C13": dict(
+   category="model_checking", design_ref="DESIGN.md §3 C13",
+   technique="TLA+ number recogniser + normal-form order (Number.tla) with TLC-checked lemma Norm order = exact order; recogniser graph walked against NewNumber; recorded Cmp/Equal/String observations validated by TLC (NumberTrace)",
+   text="Number.tla gives the JSON number grammar as a recogniser and the denotation as a digit-sequence normal form; TLC checks NormOrderCorrect/Antisymmetric/ZeroHasNoSign on all pairs of accepted texts up to length 4 with exact integer arithmetic. All strings up to length 7/9 over the number alphabet are compared with NewNumber's verdict; tens of thousands of num/cmp observations (small exhaustive set pairs, thousand-digit numbers respelled with exponent shifts up to 2500, last-digit neighbours) are validated line by line by TLC.",
+   note="Trusted: TLC and SequencesExt overrides. Exponents beyond +-2500 are outside the value oracle. Known finding: '0e5' rejected (pinned by the repository's own test)."),
 }
 
 REASON_PENDING = "check not built yet in this round (design in DESIGN.md §3); no claim is made"
